@@ -22,6 +22,12 @@ def config(draw):
 @st.composite
 def gen_case(draw, nconf):
     blocks = draw(universe.script(1, 3))
+    if draw(st.integers(0, 11)) == 0:
+        # an ALTER TABLE / CREATE INDEX on a table the script does not define: today it raises (no output to validate); if it ever
+        # returns, what it returns must have the documented shape as well
+        from .c13 import ORPHANS
+
+        blocks = blocks + [{"k": "raw", "c": {"family": "orphan", "text": draw(st.sampled_from(ORPHANS))}}]
     return {"src": "gen", "blocks": blocks, "layout": draw(gen.layout(max_len=40)), "configs": [draw(config()) for _ in range(nconf)]}
 
 
@@ -137,7 +143,7 @@ class C12(Prop):
             out.parses += 1
             out.label("mode:" + cfg["output_mode"])
             if r[0] != "ok":
-                if case["src"] == "gen":
+                if case["src"] == "gen" and not any(b["k"] == "raw" and b["c"].get("family") == "orphan" for b in case["blocks"]):
                     out.fail("exception", "%s: %s under %r; %r" % (r[1], r[2], cfg, ddl))
                 continue
             res = r[1]
